@@ -318,6 +318,13 @@ type doc
 				for qi, q := range d.sc.lists {
 					dl := deadlines[(qi+li+di+1)%len(deadlines)]
 					calls = append(calls, call{"ListObjects", q, dl, qi%3 == 1}, call{"StreamedListObjects", q, dl, false})
+					// the slow stream client leaves at each of the other deadlines as well: whether the producer
+					// is still working, or already parked on a full result buffer, depends on when it leaves
+					for _, odl := range deadlines[:3] {
+						if odl != dl {
+							calls = append(calls, call{"StreamedListObjects", q, odl, false})
+						}
+					}
 				}
 				for qi, q := range d.sc.users {
 					calls = append(calls, call{"ListUsers", [3]string{q[0], q[1], ""}, deadlines[(qi+li)%len(deadlines)], false}, call{"Expand", [3]string{q[0], q[1], ""}, 0, false})
@@ -338,6 +345,9 @@ type doc
 					c.Case(fmt.Sprintf("%s|%s|%s|%s|lat=%s|%s", d.sc.name, cl.api, sv.name, class, lat, outcome), outcome != "ok" || d.sc.name != "generated")
 					c.Count("calls_"+cl.api, 1)
 					c.Seen("outcomes", cl.api+":"+outcome)
+					if os.Getenv("VERIF_DEBUG") != "" && cl.api == "StreamedListObjects" {
+						c.Logf("DEBUG %s %s %v dl=%s -> %s in %s", d.sc.name, sv.name, cl.q, cl.deadline, outcome, took)
+					}
 					if !returned {
 						// confirm in isolation
 						again := 0
@@ -366,6 +376,11 @@ type doc
 				}
 				// release: goroutines and iterators at quiescence
 				leftover := quiesce(sv, base, 10*time.Second)
+				if os.Getenv("VERIF_DEBUG") != "" && d.sc.name == "wide-fanout" {
+					buf := make([]byte, 1<<24)
+					dump := string(buf[:runtime.Stack(buf, true)])
+					c.Logf("DEBUG after batch %s %s lat=%s: leftover=%v trySendObject goroutines=%d census=%v", d.sc.name, sv.name, lat, leftover, strings.Count(dump, "commands.trySendObject"), census())
+				}
 				c.Count("census_checks", 1)
 				if len(leftover) > 0 {
 					c.Violation(classifyLeak(leftover), "goroutine-leak|"+sv.name+"|"+d.sc.name, fmt.Sprintf("after a batch of %d requests on %s (%s, latency %s) %d kinds of goroutines are still running 10 s later: %v", len(calls), sv.name, d.sc.name, lat, len(leftover), leftover),
